@@ -6,6 +6,7 @@
    expression over &&, ||, the six comparisons and the three metric functions of predicates.go. *)
 From Coq Require Import QArith.
 From Oxy Require Import Base.Prelude Model.Breaker Proofs.BreakerProofs.
+From Oxy Require Gen.Consts.
 Open Scope Z_scope.
 
 (* at a check that is due and not in tripped: the new state is tripped iff the decision is true; the decision
@@ -124,6 +125,12 @@ Proof.
   intros o m tn td Htd. exact (eval_cmp_standard o m tn td l now lats Htd).
 Qed.
 Print Assumptions C18_eval_standard.
+
+(* the model's metrics window (10 buckets of one second) is the one memmetrics/roundtrip.go has now *)
+Theorem C18_constants_match_source :
+  Consts.counterBuckets = Breaker.buckets /\ Consts.counterResolution = Breaker.second.
+Proof. split; reflexivity. Qed.
+Print Assumptions C18_constants_match_source.
 
 (* non-vacuity: ResponseCodeRatio(500,600,0,600) >= 0.5 && LatencyAtQuantileMS(50.0) > 100, check period 1 s:
    500 at t0 (checked: 1/1 but latency 40: no trip), 200 and 503 within the period (not checked), 503 after it
